@@ -391,3 +391,47 @@ func init() {
 			Old: "\tdec.hadPeeked = false\n\tdec.hadEOF = false\n\tswitch k := tok.Kind(); k {", New: "\tdec.hadPeeked = false\n\tswitch k := tok.Kind(); k {", Rule: "V1-4"},
 	)
 }
+
+func init() {
+	addMutants(
+		// ---- C15: FIELD-1, ALIAS-1
+		Mutant{ID: "field1-omitzero-tag-ignored", Props: []string{"C15"}, File: "arshal_default.go", Func: "makeStructArshaler",
+			Old: "if (f.omitzero || mo.Flags.Get(jsonflags.OmitZeroStructFields)) &&", New: "if mo.Flags.Get(jsonflags.OmitZeroStructFields) &&", Rule: "FIELD-1"},
+		Mutant{ID: "field1-folded-before-exact", Props: []string{"C15"}, File: "arshal_default.go", Func: "makeStructArshaler",
+			Old: "\t\t\t\tf := fields.byActualName[string(name)]\n\t\t\t\tif f == nil {", New: "\t\t\t\tvar f *structField\n\t\t\t\tif f == nil {", Rule: "FIELD-1"},
+		Mutant{ID: "field1-dominance-explicit-name-before-depth", Props: []string{"C15"}, File: "fields.go", Func: "makeStructFields",
+			Old: "\t\t\tcmp.Compare(len(x.index), len(y.index)),\n\t\t\tboolsCompare(!x.hasName, !y.hasName))", New: "\t\t\tboolsCompare(!x.hasName, !y.hasName),\n\t\t\tcmp.Compare(len(x.index), len(y.index)))", Rule: "FIELD-1"},
+		Mutant{ID: "field1-casestrict-ignored", Props: []string{"C15"}, File: "fields.go", Func: "structField.matchFoldedName",
+			Old: "(flags.Get(jsonflags.MatchCaseInsensitiveNames) && f.casing != caseStrict)", New: "flags.Get(jsonflags.MatchCaseInsensitiveNames)", Rule: "FIELD-1"},
+		Mutant{ID: "field1-unknown-rejected-despite-fallback", Props: []string{"C15"}, File: "arshal_default.go", Func: "makeStructArshaler",
+			Old: "if uo.Flags.Get(jsonflags.RejectUnknownMembers) && fields.embeddedFallback == nil {", New: "if uo.Flags.Get(jsonflags.RejectUnknownMembers) {", Rule: "FIELD-1"},
+		Mutant{ID: "field1-string-tag-not-applied-on-unmarshal", Props: []string{"C15", "C04"}, File: "arshal_default.go", Func: "makeStructArshaler",
+			Old: "\t\t\t\tif f.string {\n\t\t\t\t\tuo.Flags.Set(jsonflags.StringTag | 1)\n\t\t\t\t}\n", New: "", Rule: "FIELD-1"},
+		Mutant{ID: "field1-unwrite-for-all-fields", Props: []string{"C15"}, File: "arshal_default.go", Func: "makeStructArshaler",
+			Old: "if f.omitempty && !mo.Flags.Get(jsonflags.OmitEmptyWithLegacySemantics) {\n\t\t\t\tvar prevName *string", New: "if !mo.Flags.Get(jsonflags.OmitEmptyWithLegacySemantics) {\n\t\t\t\tvar prevName *string", Rule: "FIELD-1"},
+	)
+}
+
+func init() {
+	addMutants(
+		// ---- MATRIX, POS-1, PANIC-1
+		Mutant{ID: "matrix-consumeobject-no-duplicate-check", Props: []string{"C01", "C08"}, File: "jsontext/decode.go", Func: "decoderState.consumeObject",
+			Old: "\t\tif !d.Flags.Get(jsonflags.AllowDuplicateNames) && !names.insertQuoted(quotedName, flags2.IsVerbatim()) {\n\t\t\treturn pos - n, wrapWithObjectName(ErrDuplicateName, quotedName)\n\t\t}\n", New: "\t\t_ = names\n", Rule: "MATRIX"},
+		Mutant{ID: "matrix-consumestring-never-validates", Props: []string{"C01", "C08"}, File: "jsontext/decode.go", Func: "decoderState.consumeString",
+			Old: "n, !d.Flags.Get(jsonflags.AllowInvalidUTF8))", New: "n, false)", Rule: "MATRIX"},
+		Mutant{ID: "matrix-dupcheck-under-wrong-flag", Props: []string{"C01", "C08"}, File: "jsontext/encode.go", Func: "encoderState.reformatObject",
+			Old: "if !e.Flags.Get(jsonflags.AllowDuplicateNames) && !names.insertQuoted(quotedName, isVerbatim) {", New: "if !e.Flags.Get(jsonflags.AllowDuplicateNames|jsonflags.AllowInvalidUTF8) && !names.insertQuoted(quotedName, isVerbatim) {", Rule: "MATRIX"},
+		Mutant{ID: "matrix-eof-inside-value", Props: []string{"C01"}, File: "jsontext/decode.go", Func: "decoderState.ReadValue",
+			Old: "if err == io.ErrUnexpectedEOF && d.Tokens.Depth() == 1 {", New: "if err == io.ErrUnexpectedEOF {", Rule: "MATRIX"},
+		Mutant{ID: "matrix-embedded-key-quoted-with-default-flags", Props: []string{"C08", "C11"}, File: "arshal_embedded.go", Func: "marshalEmbeddedFallbackAll",
+			Old: "jsonwire.AppendQuote(enc.AvailableBuffer(), []byte(mk.String()), &mo.Flags)", New: "jsonwire.AppendQuote(enc.AvailableBuffer(), []byte(mk.String()), &jsonflags.Flags{})", Rule: "MATRIX"},
+		Mutant{ID: "matrix-pusharray-at-name-position", Props: []string{"C01", "C06"}, File: "jsontext/state.go", Func: "stateMachine.pushArray",
+			Old: "\tcase m.Last.NeedObjectName():\n\t\treturn ErrNonStringName\n", New: "", Rule: "MATRIX"},
+		Mutant{ID: "pos1-after-error-at-closure-entry", Props: []string{"C16"}, File: "arshal_default.go", Func: "makeArrayArshaler",
+			Old: "\t\t\t\treturn newInvalidFormatError(dec, t)\n\t\t\t}\n\t\t}\n\t\ttok, err := dec.ReadToken()", New: "\t\t\t\treturn newUnmarshalErrorAfter(dec, t, nil)\n\t\t\t}\n\t\t}\n\t\ttok, err := dec.ReadToken()", Rule: "POS-1"},
+		Mutant{ID: "panic1-new-panic-in-readtoken", Props: []string{"C20"}, File: "jsontext/decode.go", Func: "decoderState.ReadToken",
+			Old: "\t// Handle the next token.\n\tvar n int\n", New: "\t// Handle the next token.\n\tvar n int\n\tif pos > len(d.buf) {\n\t\tpanic(\"BUG: position beyond buffer\")\n\t}\n", Rule: "PANIC-1"},
+		Mutant{ID: "panic1-unclassified-panic", Props: []string{"C20"}, File: "arshal_default.go", Func: "makeInvalidArshaler",
+			Old: "\t\treturn newMarshalErrorBefore(enc, t, nil)", New: "\t\tif t == nil {\n\t\t\tpanic(\"cannot marshal nil type\")\n\t\t}\n\t\treturn newMarshalErrorBefore(enc, t, nil)", Rule: "PANIC-1"},
+	)
+}
